@@ -3156,7 +3156,7 @@ func (l *channelLink) processRemoteAdds(fwdPkg *channeldb.FwdPkg) {
 				// We can't process this htlc, send back
 				// malformed.
 				l.sendMalformedHTLCError(
-					add.ID, failureCode, add.OnionBlob,
+					add.ID, failCode, add.OnionBlob,
 					&sourceRef,
 				)
 
